@@ -45,6 +45,9 @@ CLAIMED = {
     "C23": ("Coq proof (print-then-parse round trip for every well-formed Einsum and every whitespace placement; rejection lemmas for each malformed class) + differential correspondence on generated and malformed strings",
             "C23_roundtrip: any string whose whitespace-stripped form is the concise rendering of a well-formed Einsum (any number of inputs and rank entries, shorthand and 'Rank: expression' entries, any non-word separators) parses to exactly its verbose form; C23_reject_* cover '=' count, empty projection/entry, upper-case shorthand, lower-case key, two colons, duplicate ranks. The real _parse_einsum_string / Einsum construction (concise entry with extra attributes vs verbose form) are compared with the vm_compute-evaluated model on random and malformed strings; every generated valid case is checked inside Coq to satisfy the theorem's hypotheses.",
             "Coq kernel; Python's re engine replaced by explicit scanners (tied by correspondence); attribute merge and pydantic construction correspondence-only; ASCII"),
+    "C24": ("Coq proof (enumerated iteration space = box, counts, bounds, data space = intersection of projected spaces, reported size = number of projected points whenever a size is reported, stride = step, halo = extreme of the slice) + differential correspondence against ISL-backed code",
+            "C24_iteration_space, C24_ops, C24_bounds, C24_data_space, C24_size_or_error, C24_stride, C24_halo for all boxes and affine accesses; the real n_computes / get_rank_variable_bounds / get_tensor_size (value or error) / get_stride_and_halo_of_einsum are compared with the vm_compute-evaluated model and a brute-force enumeration on random workloads (strided, diagonal, convolution-like and constant-offset accesses, intermediate and multiply-read tensors).",
+            "Coq kernel; ISL not modelled (tied by correspondence); non-negative coefficients; halo read as the docstring's 'initial delta' (constant term included)"),
 }
 
 PENDING_REASON = "check not built yet in this round (planned, see DESIGN.md section 6); not claimed until its proof and correspondence exist"
